@@ -10,7 +10,10 @@ func init() {
 	register("C08", &Property{
 		Title: "Bounds is the tight bounding box and FastBounds contains it",
 		Explanation: "Decides, for every path, the structural clauses of Bounds/FastBounds/Rect hulls: each accumulator returned as a low (high) side is only ever updated by math.Min (math.Max) folds that include itself; no fold nests the opposite operator; Bounds folds every segment end point into all four sides unconditionally; FastBounds folds every decoded control/end point into all four sides with min/max and X/Y candidate sets mirrored (arc: centre∓max(rx,ry)); Rect.Transform/Add/AddPoint hulls are pure and complete. A violated clause makes the box exclude a point of the path for some input. NOT decided: which Bézier/arc extrema are computed (root finding, angle tests), tightness, equivariance.",
-		Run: func(c *core.Ctx, r *core.Report) { E3BoundingBoxes(c, r) },
+		Run: func(c *core.Ctx, r *core.Report) {
+			E3BoundingBoxes(c, r)
+			E3BoundsExtrema(c, r)
+		},
 	})
 }
 
@@ -53,6 +56,7 @@ func init() {
 			E2CursorDomain(c, r, nil)
 			E2RecordLayout(c, r)
 			E2RecordConstruction(c, r)
+			E11CutCarried(c, r)
 		},
 	})
 }
@@ -114,6 +118,7 @@ func init() {
 		Run: func(c *core.Ctx, r *core.Report) {
 			E6StyleCoverage(c, r, nil)
 			E6DashScaling(c, r)
+			E6WidthFrame(c, r)
 			E6TransformBeforeSerialise(c, r)
 			E6EnumTables(c, r)
 			E5Grammar(c, r)
@@ -148,6 +153,19 @@ func init() {
 			E1Renderers(c, r)
 			E6StyleCoverage(c, r, map[string]bool{"Rasterizer": true})
 			E6ScannerSites(c, r)
+		},
+	})
+}
+
+func init() {
+	register("C15", &Property{
+		Title: "Context and Canvas apply views, coordinate systems and state as documented",
+		Explanation: "Decides, for every call sequence: view helpers are exactly `view = view.Mul(Identity.<same-named op>(own parameters))` (post-multiplication) and ComposeView post-multiplies its argument; the four draw entry points assemble the same matrix CoordSystemView().Mul(view).Translate(coordView.Dot(x,y)) and compensate text/images exactly in the coordinate systems whose CoordSystemView reflects that axis; every Set*/Reset* method stores only into ContextState; Push saves and Pop restores the whole ContextState (Pop guarded, shrinking by one); Fill/Stroke clear and restore exactly the other paint; drawing does not rewrite the dash array shared with pushed states; RenderViewTo replays in sorted z-index then slice order with no renderer call inside a map range, and recording appends to the current z-index slice. NOT decided: the matrix algebra itself, Fit/Clip/Transform arithmetic, that DrawPath with several paths keeps per-path stroke state.",
+		Run: func(c *core.Ctx, r *core.Report) {
+			E11ViewComposition(c, r)
+			E11ContextState(c, r)
+			E11Replay(c, r)
+			E1ContextDraws(c, r)
 		},
 	})
 }
